@@ -1,52 +1,828 @@
 package main
 
 import (
+	"encoding/json"
 	"fmt"
+	"html"
+	"net/url"
+	"os"
+	"regexp"
+	"strconv"
 	"strings"
 	"testing/fstest"
+	"unicode/utf8"
 
 	"github.com/open2b/scriggo"
 	"github.com/open2b/scriggo/native"
 	hook "github.com/open2b/scriggo/verifhook/c07"
+
+	"verifharness/internal/hx"
+	"verifharness/internal/proto"
 )
 
-func render(name, src string, v string) string {
-	fsys := fstest.MapFS{name: &fstest.MapFile{Data: []byte(src)}}
-	t, err := scriggo.BuildTemplate(fsys, name, &scriggo.BuildOptions{Globals: native.Declarations{"v": (*string)(nil)}})
+// C07: escaped values decode back to the exact original text.
+//
+//   - correspondence: every escaper of internal/runtime/escapers.go (called through the verif
+//     hook with a recording writer) against Model/Escape.lean, chunk by chunk;
+//   - the property's oracle on the real output, independent of the model: html.UnescapeString,
+//     strconv.Unquote + encoding/json + a byte-level JS unescaper, a CSS unescaper written from
+//     CSS Syntax 3, url.QueryUnescape / url.PathUnescape;
+//   - the same through real templates (BuildTemplate + Run, the value as a global variable in
+//     every string-bearing context);
+//   - validation of Spec/Decode.lean against the same standard-library decoders.
+func main() { hx.Main("C07", run) }
+
+// ---------------------------------------------------------------- real code
+
+type escaper struct {
+	name   string // protocol name
+	which  string // hook name
+	ee, q  bool
+	oracle func(s, out string) string // "" or the failing clause
+	human  string
+}
+
+var escapers = []escaper{
+	{"html", "html", false, false, oracleHTML, "htmlEscape(%q)"},
+	{"htmlnoent", "htmlnoent", false, false, nil, "htmlNoEntitiesEscape(%q)"},
+	{"attr11", "attr", true, true, oracleHTML, "attributeEscape(%q, escapeEntities=true, quoted=true)"},
+	{"attr10", "attr", true, false, oracleHTML, "attributeEscape(%q, escapeEntities=true, quoted=false)"},
+	{"attr01", "attr", false, true, nil, "attributeEscape(%q, escapeEntities=false, quoted=true)"},
+	{"attr00", "attr", false, false, nil, "attributeEscape(%q, escapeEntities=false, quoted=false)"},
+	{"css", "css", false, false, oracleCSS, "cssStringEscape(%q)"},
+	{"js", "js", false, false, oracleJS, "jsStringEscape(%q)"},
+	{"path1", "path", false, true, oraclePath, "pathEscape(%q, quoted=true)"},
+	{"path0", "path", false, false, oraclePath, "pathEscape(%q, quoted=false)"},
+	{"query", "query", false, false, oracleQuery, "queryEscape(%q)"},
+}
+
+func escaperByName(n string) *escaper {
+	for i := range escapers {
+		if escapers[i].name == n {
+			return &escapers[i]
+		}
+	}
+	return nil
+}
+
+// callReal runs the real escaper; line is its result in the protocol's canonical form.
+func callReal(e *escaper, s string) (out string, line string) {
+	defer func() {
+		if r := recover(); r != nil {
+			out, line = "", "err panic: "+fmt.Sprint(r)
+		}
+	}()
+	chunks, n, err := hook.Escape(e.which, s, e.ee, e.q)
 	if err != nil {
-		return "BUILD: " + err.Error()
+		return "", "err error: " + err.Error()
+	}
+	out = strings.Join(chunks, "")
+	if n == -1 {
+		n = len(out)
+	}
+	hs := make([]string, len(chunks))
+	for i, c := range chunks {
+		hs[i] = proto.Hex([]byte(c))
+	}
+	cs := "none"
+	if len(chunks) > 0 {
+		cs = strings.Join(hs, ",")
+	}
+	return out, fmt.Sprintf("ok %d %s", n, cs)
+}
+
+// ---------------------------------------------------------------- oracles (standard decoders)
+
+func oracleHTML(s, out string) string {
+	if html.UnescapeString(out) != s {
+		return "html-decodes-back"
+	}
+	return ""
+}
+
+// toValid is s with every invalid UTF-8 byte replaced by U+FFFD: what a decoder that works
+// on code points (strconv, encoding/json) returns for bytes that are not UTF-8.
+func toValid(s string) string { return string([]rune(s)) }
+
+func oracleJS(s, out string) string {
+	if d, ok := jsUnescape(out, false); !ok || d != s {
+		return "js-decodes-back"
+	}
+	if d, ok := jsUnescape(out, true); !ok || d != s {
+		return "json-decodes-back"
+	}
+	if d, err := strconv.Unquote(`"` + out + `"`); err != nil || d != toValid(s) {
+		return "strconv-unquote"
+	}
+	var v string
+	if err := json.Unmarshal([]byte(`"`+out+`"`), &v); err != nil || v != toValid(s) {
+		return "encoding-json"
+	}
+	return ""
+}
+
+// CSS cannot represent U+0000: a NUL, raw or escaped, is U+FFFD (CSS Syntax 3 par. 3.3, 4.3.7).
+// This is the property's "target language cannot represent a code point" exception.
+func oracleCSS(s, out string) string {
+	if cssUnescape(out) != strings.ReplaceAll(s, "\x00", "\ufffd") {
+		return "css-decodes-back"
+	}
+	return ""
+}
+
+func oracleQuery(s, out string) string {
+	if d, err := url.QueryUnescape(out); err != nil || d != s {
+		return "query-decodes-back"
+	}
+	if d, err := url.PathUnescape(out); err != nil || d != s {
+		return "percent-decodes-back"
+	}
+	if !pctAlphabet(out) {
+		return "query-alphabet"
+	}
+	return ""
+}
+
+// pathEscape keeps what already is a percent-encoded triplet and encodes the rest, so the
+// rendered attribute value, entity-decoded and then percent-decoded, is the path the author
+// wrote with its own %XX decoded (a `%` not followed by two hex digits stands for itself).
+func oraclePath(s, out string) string {
+	d, err := url.PathUnescape(html.UnescapeString(out))
+	if err != nil {
+		return "path-output-is-percent-encoded"
 	}
 	var b strings.Builder
-	err = t.Run(&b, map[string]any{"v": v}, nil)
-	if err != nil {
-		return "RUN: " + err.Error()
+	for i := 0; i < len(s); i++ {
+		if s[i] == '%' && i+2 < len(s) && isHex(s[i+1]) && isHex(s[i+2]) {
+			b.WriteByte(byte(unhex(s[i+1])<<4 | unhex(s[i+2])))
+			i += 2
+		} else {
+			b.WriteByte(s[i])
+		}
+	}
+	if d != b.String() {
+		return "path-decodes-back"
+	}
+	return ""
+}
+
+func isHex(c byte) bool {
+	return '0' <= c && c <= '9' || 'a' <= c && c <= 'f' || 'A' <= c && c <= 'F'
+}
+
+func unhex(c byte) int {
+	switch {
+	case '0' <= c && c <= '9':
+		return int(c - '0')
+	case 'a' <= c && c <= 'f':
+		return int(c-'a') + 10
+	}
+	return int(c-'A') + 10
+}
+
+// pctAlphabet: only RFC 3986 unreserved characters and %XX.
+func pctAlphabet(out string) bool {
+	for i := 0; i < len(out); i++ {
+		c := out[i]
+		switch {
+		case c == '%':
+			if i+2 >= len(out) || !isHex(out[i+1]) || !isHex(out[i+2]) {
+				return false
+			}
+			i += 2
+		case '0' <= c && c <= '9' || 'a' <= c && c <= 'z' || 'A' <= c && c <= 'Z' || c == '-' || c == '.' || c == '_' || c == '~':
+		default:
+			return false
+		}
+	}
+	return true
+}
+
+// cssUnescape is the value of a CSS string token whose content is in, written from CSS
+// Syntax Module Level 3: par. 3.3 preprocessing (CR, FF, CR LF -> LF; NUL -> U+FFFD), par. 4.3.5 consume
+// a string token (`\` EOF: nothing; `\` newline: nothing), par. 4.3.7 consume an escaped code point
+// (1-6 hex digits, then one whitespace; 0, surrogates and > 0x10FFFF -> U+FFFD). Bytes that are
+// not part of an escape are copied.
+func cssUnescape(in string) string {
+	var b strings.Builder
+	pre := func(c byte) {
+		switch c {
+		case 0:
+			b.WriteString("\ufffd")
+		case '\f', '\r':
+			b.WriteByte('\n')
+		default:
+			b.WriteByte(c)
+		}
+	}
+	for i := 0; i < len(in); {
+		c := in[i]
+		if c == '\r' && i+1 < len(in) && in[i+1] == '\n' {
+			b.WriteByte('\n')
+			i += 2
+			continue
+		}
+		if c != '\\' {
+			pre(c)
+			i++
+			continue
+		}
+		i++
+		if i == len(in) {
+			break
+		}
+		d := in[i]
+		switch {
+		case d == '\r' && i+1 < len(in) && in[i+1] == '\n':
+			i += 2
+		case d == '\n' || d == '\f' || d == '\r':
+			i++
+		case isHex(d):
+			v, n := 0, 0
+			for n < 6 && i < len(in) && isHex(in[i]) {
+				v = v*16 + unhex(in[i])
+				i++
+				n++
+			}
+			if i < len(in) {
+				switch in[i] {
+				case '\r':
+					i++
+					if i < len(in) && in[i] == '\n' {
+						i++
+					}
+				case '\n', '\f', '\t', ' ':
+					i++
+				}
+			}
+			if v == 0 || v > 0x10FFFF || 0xD800 <= v && v <= 0xDFFF {
+				v = 0xFFFD
+			}
+			b.WriteRune(rune(v))
+		default:
+			pre(d)
+			i++
+		}
 	}
 	return b.String()
 }
 
-func main() {
-	ch, n, err := hook.Escape("css", "<c", true, true)
-	fmt.Printf("%q %d %v\n", ch, n, err)
-	v := "<c \"'&= é\xff%41+/"
-	for _, t := range [][2]string{
-		{"a.html", `<p>{{ v }}</p>`},
-		{"a.html", `<p title="{{ v }}">`},
-		{"a.html", `<p title='{{ v }}'>`},
-		{"a.html", `<p title={{ v }}>`},
-		{"a.html", `<script>var a = "{{ v }}";</script>`},
-		{"a.html", `<script>var a = '{{ v }}';</script>`},
-		{"a.html", `<script type="application/ld+json">{"a": "{{ v }}"}</script>`},
-		{"a.html", `<style>a::before{content:"{{ v }}"}</style>`},
-		{"a.html", `<style>a::before{content:'{{ v }}'}</style>`},
-		{"a.html", `<p style="content:'{{ v }}'">`},
-		{"a.html", `<a href="/p?x={{ v }}">`},
-		{"a.html", `<a href="/p/{{ v }}">`},
-		{"a.html", `<a href=/p?x={{ v }}>`},
-		{"a.html", `<a href=/p/{{ v }}>`},
-		{"a.js", `var a = "{{ v }}";`},
-		{"a.json", `{"a": "{{ v }}"}`},
-		{"a.css", `a::before{content:"{{ v }}"}`},
-	} {
-		fmt.Printf("%s  %s\n   => %q\n", t[0], t[1], render(t[0], t[1], v))
+// jsUnescape is the string value (UTF-8) of a JavaScript (strict mode) or JSON string
+// literal with body in; ok=false when in is not a valid body between either kind of quote.
+// Bytes outside escapes are copied, so it is exact on invalid UTF-8 too.
+func jsUnescape(in string, jsonMode bool) (string, bool) {
+	var b strings.Builder
+	hex4 := func(i int) (int, bool) {
+		if i+4 > len(in) {
+			return 0, false
+		}
+		v := 0
+		for k := 0; k < 4; k++ {
+			if !isHex(in[i+k]) {
+				return 0, false
+			}
+			v = v*16 + unhex(in[i+k])
+		}
+		return v, true
 	}
+	for i := 0; i < len(in); {
+		c := in[i]
+		if c != '\\' {
+			if c == '"' || jsonMode && c < 0x20 || !jsonMode && (c == '\'' || c == '\n' || c == '\r') {
+				return "", false
+			}
+			b.WriteByte(c)
+			i++
+			continue
+		}
+		i++
+		if i == len(in) {
+			return "", false
+		}
+		d := in[i]
+		i++
+		switch d {
+		case 'b':
+			b.WriteByte(8)
+		case 'f':
+			b.WriteByte(12)
+		case 'n':
+			b.WriteByte(10)
+		case 'r':
+			b.WriteByte(13)
+		case 't':
+			b.WriteByte(9)
+		case '"', '\\', '/':
+			b.WriteByte(d)
+		case 'u':
+			if !jsonMode && i < len(in) && in[i] == '{' {
+				j, v, n := i+1, 0, 0
+				for j < len(in) && isHex(in[j]) {
+					if v <= 0x10FFFF {
+						v = v*16 + unhex(in[j])
+					}
+					j++
+					n++
+				}
+				if n == 0 || j >= len(in) || in[j] != '}' || v > 0x10FFFF {
+					return "", false
+				}
+				b.WriteRune(rune(v)) // surrogates become U+FFFD
+				i = j + 1
+				continue
+			}
+			u, ok := hex4(i)
+			if !ok {
+				return "", false
+			}
+			i += 4
+			if 0xD800 <= u && u <= 0xDBFF && i+1 < len(in) && in[i] == '\\' && in[i+1] == 'u' {
+				if l, ok := hex4(i + 2); ok && 0xDC00 <= l && l <= 0xDFFF {
+					b.WriteRune(rune(0x10000 + (u-0xD800)<<10 + (l - 0xDC00)))
+					i += 6
+					continue
+				}
+			}
+			b.WriteRune(rune(u)) // a lone surrogate becomes U+FFFD
+		default:
+			if jsonMode {
+				return "", false
+			}
+			switch {
+			case d == 'v':
+				b.WriteByte(11)
+			case d == 'x':
+				if i+2 > len(in) || !isHex(in[i]) || !isHex(in[i+1]) {
+					return "", false
+				}
+				b.WriteRune(rune(unhex(in[i])*16 + unhex(in[i+1])))
+				i += 2
+			case d == '0':
+				if i < len(in) && '0' <= in[i] && in[i] <= '9' {
+					return "", false
+				}
+				b.WriteByte(0)
+			case '1' <= d && d <= '9':
+				return "", false
+			case d == '\r':
+				if i < len(in) && in[i] == '\n' {
+					i++
+				}
+			case d == '\n':
+			case d == 0xE2 && i+1 < len(in) && in[i] == 0x80 && (in[i+1] == 0xA8 || in[i+1] == 0xA9):
+				i += 2
+			default:
+				b.WriteByte(d)
+			}
+		}
+	}
+	return b.String(), true
+}
+
+// ---------------------------------------------------------------- templates
+
+type tmplCtx struct {
+	file, src string
+	esc       string // the escaper this context must apply
+	tmpl      *scriggo.Template
+	pre, post string
+}
+
+var tmplCtxs = []*tmplCtx{
+	{file: "t.html", src: `<p>{{ v }}</p>`, esc: "html"},
+	{file: "t.html", src: `<p title="{{ v }}">`, esc: "attr11"},
+	{file: "t.html", src: `<p title='{{ v }}'>`, esc: "attr11"},
+	{file: "t.html", src: `<p title={{ v }}>`, esc: "attr10"},
+	{file: "t.html", src: `<script>var a = "{{ v }}";</script>`, esc: "js"},
+	{file: "t.html", src: `<script>var a = '{{ v }}';</script>`, esc: "js"},
+	{file: "t.html", src: `<script type="application/ld+json">{"a": "{{ v }}"}</script>`, esc: "js"},
+	{file: "t.js", src: `var a = "{{ v }}";`, esc: "js"},
+	{file: "t.json", src: `{"a": "{{ v }}"}`, esc: "js"},
+	{file: "t.html", src: `<style>a::before{content:"{{ v }}"}</style>`, esc: "css"},
+	{file: "t.html", src: `<style>a::before{content:'{{ v }}'}</style>`, esc: "css"},
+	{file: "t.css", src: `a::before{content:"{{ v }}"}`, esc: "css"},
+	{file: "t.html", src: `<a href="/p?x={{ v }}">`, esc: "query"},
+	{file: "t.html", src: `<a href='/p?x={{ v }}'>`, esc: "query"},
+	{file: "t.html", src: `<a href=/p?x={{ v }}>`, esc: "query"},
+	{file: "t.html", src: `<a href="/p/{{ v }}">`, esc: "path1"},
+	{file: "t.html", src: `<a href=/p/{{ v }}>`, esc: "path0"},
+}
+
+func buildTemplates() error {
+	for _, t := range tmplCtxs {
+		fsys := fstest.MapFS{t.file: &fstest.MapFile{Data: []byte(t.src)}}
+		tm, err := scriggo.BuildTemplate(fsys, t.file, &scriggo.BuildOptions{Globals: native.Declarations{"v": (*string)(nil)}})
+		if err != nil {
+			return fmt.Errorf("template %q does not build: %v", t.src, err)
+		}
+		t.tmpl = tm
+		i := strings.Index(t.src, "{{ v }}")
+		t.pre, t.post = t.src[:i], t.src[i+len("{{ v }}"):]
+	}
+	return nil
+}
+
+func (t *tmplCtx) render(s string) (out string, fail string) {
+	defer func() {
+		if r := recover(); r != nil {
+			out, fail = "", "panic: "+fmt.Sprint(r)
+		}
+	}()
+	var b strings.Builder
+	if err := t.tmpl.Run(&b, map[string]any{"v": s}, nil); err != nil {
+		return "", "error: " + err.Error()
+	}
+	return b.String(), ""
+}
+
+// ---------------------------------------------------------------- inputs
+
+var multiByte = []string{"\u00e9", "\u2028", "\u2029", "\u2027", "\u202a", "\ufffd", "\U0001F600", "\u03cc", "\x80", "\xbf", "\xc3", "\xe2", "\xe2\x80", "\xff", "\xed\xa0\x80", "\xf4\x90\x80\x80", "\xc0\xaf"}
+
+// the property's dictionary: every ASCII byte (each is escape-relevant for at least one of the
+// tables or decoders) and a few sequences that matter to a decoder
+func dictionary() []string {
+	var d []string
+	for c := 0; c < 128; c++ {
+		d = append(d, string([]byte{byte(c)}))
+	}
+	d = append(d, "\u2028", "\u2029", "\u00e9", "\xff", "\xe2\x80", "%4", "%41", "%", "\\u", "\\", "&amp;", "&#", "&#x", "&lt", "\r\n", "</", "]]>", "\\3c", "&#34")
+	return d
+}
+
+func successors() []string {
+	var s []string
+	for c := 0; c < 128; c++ {
+		s = append(s, string([]byte{byte(c)}))
+	}
+	return append(s, multiByte...)
+}
+
+var special = []byte("\"'&<>\\/+%=`;:(){}# \t\n\r\f\x00\x0b\x7fcdefCDEF09abAB-._~?")
+
+func randomString(r *proto.Rand, validUTF8 bool) string {
+	n := r.Intn(40)
+	var b []byte
+	for len(b) < n {
+		switch r.Intn(6) {
+		case 0, 1:
+			b = append(b, special[r.Intn(len(special))])
+		case 2:
+			b = append(b, byte(r.Intn(128)))
+		case 3:
+			b = append(b, byte('a'+r.Intn(26)))
+		case 4:
+			if validUTF8 {
+				var cp rune
+				switch r.Intn(4) {
+				case 0:
+					cp = rune(0x80 + r.Intn(0x780))
+				case 1:
+					cp = rune(0x2020 + r.Intn(16))
+				case 2:
+					cp = rune(0x800 + r.Intn(0xF800))
+				default:
+					cp = rune(0x10000 + r.Intn(0x100000))
+				}
+				if 0xD800 <= cp && cp <= 0xDFFF {
+					cp = 0x2028
+				}
+				b = utf8.AppendRune(b, cp)
+			} else {
+				b = append(b, byte(0x80+r.Intn(128)))
+			}
+		default:
+			if validUTF8 {
+				b = append(b, multiByte[r.Intn(8)]...)
+			} else {
+				b = append(b, multiByte[r.Intn(len(multiByte))]...)
+			}
+		}
+	}
+	return string(b)
+}
+
+// ---------------------------------------------------------------- spec validation corpora
+
+var htmlTokens = []string{"&", "&amp;", "&lt;", "&gt;", "&quot;", "&apos;", "&amp", "&lt", "&gt", "&quot", "&apos", "&#", "&#x", "&#X", ";", "0", "1", "9", "34", "39", "x", "f", "F", "128", "80", "9f", "d800", "110000", "fffd", "0000", " ", "z", "=", "<", "\xc3\xa9", "\xff", "#"}
+var cssTokens = []string{"\\", "\\\\", "0", "3", "c", "C", "f", "g", "z", " ", "\t", "\n", "\r", "\r\n", "\f", "\x00", "\\3c", "\\10ffff", "\\110000", "\\d800", "\\0", "\\000000", "\"", "'", "\xc3\xa9", "\xff"}
+var jsTokens = []string{"\\", "\\\\", "\\u", "\\u0041", "\\u2028", "\\ud83d", "\\ude00", "\\uD83D\\uDE00", "\\x", "\\x41", "\\xe9", "\\u{", "\\u{1F600}", "}", "\\0", "\\1", "\\8", "\\b", "\\v", "\\'", "\\\"", "\\/", "\\a", "\\\n", "\\\r\n", "\\\u2028", "\"", "'", "\n", "\r", "\t", "\x00", "\x1f", "\x7f", "0", "4", "a", "f", "z", "\u2028", "\xc3\xa9", "\xff", "</"}
+var pctTokens = []string{"%", "%4", "%41", "%ff", "%FF", "%zz", "%0", "+", "a", "Z", "0", "f", "~", "-", " ", "&", "=", "\xff", "\xc3\xa9"}
+
+func tokenString(r *proto.Rand, toks []string) string {
+	var b strings.Builder
+	for n := r.Intn(7); n > 0; n-- {
+		b.WriteString(toks[r.Intn(len(toks))])
+	}
+	return b.String()
+}
+
+var goHTMLQuirk = regexp.MustCompile(`&#[xX];|&#[0-9]([^0-9;]|$)|&#[xX][0-9a-fA-F]{8}|&#[0-9]{10}`)
+
+func optLine(s string, ok bool) string {
+	if !ok {
+		return "err invalid"
+	}
+	return "ok " + proto.Hex([]byte(s))
+}
+
+// stdDecode is the standard-library (or Go-written-from-the-standard) answer to `C07 dec`.
+// applicable=false when the independent decoder is not defined on this input in the way
+// the specification is (encoding/json on invalid UTF-8).
+func stdDecode(which, in string) (line string, applicable bool) {
+	switch which {
+	case "html":
+		// html.UnescapeString departs from the standard in three corners: it decides "no digits
+		// matched" by position, so `&#x;` becomes U+FFFD and a one-digit decimal reference
+		// without `;` is left alone; and it accumulates the number in an int32, so a reference
+		// with 8+ hex / 10+ decimal digits wraps around instead of being U+FFFD. Not compared there.
+		if goHTMLQuirk.MatchString(in) {
+			return "", false
+		}
+		return optLine(html.UnescapeString(in), true), true
+	case "css":
+		return optLine(cssUnescape(in), true), true
+	case "js":
+		d, ok := jsUnescape(in, false)
+		return optLine(d, ok), true
+	case "json":
+		if !utf8.ValidString(in) {
+			d, ok := jsUnescape(in, true)
+			return optLine(d, ok), true
+		}
+		var v string
+		err := json.Unmarshal([]byte(`"`+in+`"`), &v)
+		return optLine(v, err == nil), true
+	case "pct0":
+		d, err := url.PathUnescape(in)
+		return optLine(d, err == nil), true
+	case "pct1":
+		d, err := url.QueryUnescape(in)
+		return optLine(d, err == nil), true
+	}
+	return "", false
+}
+
+// ---------------------------------------------------------------- run
+
+func run(c *hx.Ctx) error {
+	res := c.Res
+	res.Rule = "inputs: dictionary (all 128 ASCII bytes + 19 decoder-relevant sequences) alone, followed by every ASCII byte and 17 sampled non-ASCII successors (valid and invalid UTF-8), the same after a plain prefix, plus random valid and random invalid UTF-8 (length < 40, biased to escape-relevant bytes); every input goes through all 11 escaper configurations directly and a sample through 17 template contexts; a case (escaper, input) is non-trivial when the input has a byte outside [0-9A-Za-z]; distinct by (escaper, input)"
+
+	var inputs []string
+	if c.Replay != "" {
+		if data, err := os.ReadFile(c.Replay); err == nil {
+			var rp struct {
+				Case string `json:"case"`
+			}
+			if json.Unmarshal(data, &rp) == nil {
+				if f := strings.Fields(rp.Case); len(f) == 4 && f[0] == "C07" {
+					if b, err := proto.UnHex(f[3]); err == nil {
+						inputs = append(inputs, string(b))
+						res.Notes = append(res.Notes, fmt.Sprintf("replaying %q first", b))
+					}
+				}
+			}
+		}
+	}
+	dict, succ := dictionary(), successors()
+	inputs = append(inputs, "")
+	for _, d := range dict {
+		inputs = append(inputs, d)
+		for _, s := range succ {
+			inputs = append(inputs, d+s)
+		}
+	}
+	nDict := len(inputs)
+	// the same after a plain prefix and with a plain suffix (exercises `last != i`), sampled
+	for i := 0; i < c.N(4000, 40000); i++ {
+		d, s := dict[c.R.Intn(len(dict))], succ[c.R.Intn(len(succ))]
+		switch c.R.Intn(3) {
+		case 0:
+			inputs = append(inputs, "ab"+d+s)
+		case 1:
+			inputs = append(inputs, d+s+"yz")
+		default:
+			inputs = append(inputs, d+s+dict[c.R.Intn(len(dict))]+succ[c.R.Intn(len(succ))])
+		}
+	}
+	nPre := len(inputs) - nDict
+	nRand := c.N(6000, 150000)
+	for i := 0; i < nRand; i++ {
+		inputs = append(inputs, randomString(c.R, i%2 == 0))
+	}
+	res.Histogram["inputs-dictionary-x-successor"] = nDict
+	res.Histogram["inputs-prefixed-suffixed"] = nPre
+	res.Histogram["inputs-random-valid-utf8"] = (nRand + 1) / 2
+	res.Histogram["inputs-random-invalid-utf8"] = nRand / 2
+
+	if err := buildTemplates(); err != nil {
+		return err
+	}
+
+	// 0. generated predicates against the real ones, all 256 bytes
+	if c.D != nil {
+		var lines []string
+		for n := 0; n < 256; n++ {
+			lines = append(lines, fmt.Sprintf("C07 pred prefix %d", n), fmt.Sprintf("C07 pred ishex %d", n))
+		}
+		ans, err := c.D.Batch(lines)
+		if err != nil {
+			return err
+		}
+		for n := 0; n < 256; n++ {
+			for k, real := range []bool{hook.PrefixWithSpace(byte(n)), hook.IsHexDigit(byte(n))} {
+				want := "ok 0"
+				if real {
+					want = "ok 1"
+				}
+				res.Count(lines[2*n+k], true)
+				if ans[2*n+k] != want {
+					res.AddBreak(proto.Break{Kind: "correspondence", Name: "generated-predicate-vs-real", Case: lines[2*n+k], Impl: want, Model: ans[2*n+k]})
+				}
+			}
+		}
+	}
+
+	plain := func(s string) bool {
+		for i := 0; i < len(s); i++ {
+			c := s[i]
+			if !('0' <= c && c <= '9' || 'a' <= c && c <= 'z' || 'A' <= c && c <= 'Z') {
+				return false
+			}
+		}
+		return true
+	}
+	reported := map[string]bool{}
+	propertyBreak := func(e *escaper, s, clause string) {
+		if reported[e.name+clause] {
+			return
+		}
+		reported[e.name+clause] = true
+		min := hx.ShrinkBytes([]byte(s), func(b []byte) bool {
+			out, line := callReal(e, string(b))
+			return strings.HasPrefix(line, "ok ") && e.oracle(string(b), out) == clause
+		})
+		out, _ := callReal(e, string(min))
+		res.AddBreak(proto.Break{Kind: "property", Name: e.name + ":" + clause, Case: "C07 esc " + e.name + " " + proto.Hex(min),
+			Human: fmt.Sprintf(e.human, min) + fmt.Sprintf(" = %q does not decode back to the input", out), Impl: "ok " + proto.Hex([]byte(out)), Model: "decodes to " + proto.Hex(min)})
+	}
+
+	// 1. every escaper on every input: correspondence + oracle; collect outputs for 3.
+	type decCase struct{ which, in string }
+	var decCases []decCase
+	const batch = 20000
+	for lo := 0; lo < len(inputs); lo += batch {
+		hi := min(lo+batch, len(inputs))
+		var lines []string
+		for _, s := range inputs[lo:hi] {
+			for i := range escapers {
+				lines = append(lines, "C07 esc "+escapers[i].name+" "+proto.Hex([]byte(s)))
+			}
+		}
+		var model []string
+		if c.D != nil {
+			var err error
+			if model, err = c.D.Batch(lines); err != nil {
+				return err
+			}
+		}
+		k := 0
+		for idx, s := range inputs[lo:hi] {
+			nontrivial := !plain(s)
+			for i := range escapers {
+				e := &escapers[i]
+				out, line := callReal(e, s)
+				res.Count(e.name+"\x00"+s, nontrivial)
+				if (lo+idx)%4099 == 0 && nontrivial && i == (lo+idx)%len(escapers) {
+					smp := map[string]string{"input": s, "line": lines[k], "impl": line}
+					if model != nil {
+						smp["model"] = model[k]
+					}
+					res.Sample(smp)
+				}
+				if model != nil && model[k] != line {
+					res.AddBreak(proto.Break{Kind: "correspondence", Name: "escaper-model-vs-real:" + e.name, Case: lines[k],
+						Human: fmt.Sprintf(e.human, s), Impl: line, Model: model[k]})
+				}
+				if !strings.HasPrefix(line, "ok ") {
+					if !reported[e.name+"fails"] {
+						reported[e.name+"fails"] = true
+						res.AddBreak(proto.Break{Kind: "property", Name: e.name + ":no-error-no-panic", Case: lines[k], Human: fmt.Sprintf(e.human, s), Impl: line, Model: "ok"})
+					}
+				} else if e.oracle != nil {
+					if clause := e.oracle(s, out); clause != "" {
+						propertyBreak(e, s, clause)
+					}
+					if (lo+idx)%3 == 0 {
+						switch e.name {
+						case "html", "attr10":
+							decCases = append(decCases, decCase{"html", out})
+						case "css":
+							decCases = append(decCases, decCase{"css", out})
+						case "js":
+							decCases = append(decCases, decCase{"js", out}, decCase{"json", out})
+						case "query":
+							decCases = append(decCases, decCase{"pct0", out}, decCase{"pct1", out})
+						}
+					}
+				}
+				k++
+			}
+		}
+	}
+	res.Hist("escaper-configurations-11")
+
+	// 2. through real templates
+	step := c.N(7, 1)
+	nT := 0
+	for idx, s := range inputs {
+		if idx >= nDict && idx%step != 0 || idx < nDict && idx%(step*2) != 0 {
+			continue
+		}
+		for _, t := range tmplCtxs {
+			e := escaperByName(t.esc)
+			if s == "" && strings.HasPrefix(e.name, "path") {
+				// nothing to decode; and showInURL indexes s[len(s)-1] in some states (C05's finding)
+				continue
+			}
+			direct, dline := callReal(e, s)
+			got, fail := t.render(s)
+			nT++
+			res.Count("tmpl\x00"+t.src+"\x00"+s, !plain(s))
+			if fail != "" || !strings.HasPrefix(dline, "ok ") {
+				res.AddBreak(proto.Break{Kind: "property", Name: "template:renders:" + e.name, Case: "C07 esc " + e.name + " " + proto.Hex([]byte(s)),
+					Human: fmt.Sprintf("template %s `%s` with v=%q", t.file, t.src, s), Impl: fail + dline, Model: "renders"})
+				continue
+			}
+			if want := t.pre + direct + t.post; got != want {
+				res.AddBreak(proto.Break{Kind: "correspondence", Name: "template-vs-direct-escaper:" + e.name, Case: "C07 esc " + e.name + " " + proto.Hex([]byte(s)),
+					Human: fmt.Sprintf("template %s `%s` with v=%q", t.file, t.src, s), Impl: got, Model: want})
+				continue
+			}
+			// the property on the rendered text itself
+			if e.oracle != nil {
+				body := strings.TrimSuffix(strings.TrimPrefix(got, t.pre), t.post)
+				if clause := e.oracle(s, body); clause != "" && !reported["tmpl"+e.name+clause] {
+					reported["tmpl"+e.name+clause] = true
+					res.AddBreak(proto.Break{Kind: "property", Name: "template:" + e.name + ":" + clause, Case: "C07 esc " + e.name + " " + proto.Hex([]byte(s)),
+						Human: fmt.Sprintf("template %s `%s` with v=%q renders %q", t.file, t.src, s, got), Impl: "ok " + proto.Hex([]byte(body)), Model: "decodes to " + proto.Hex([]byte(s))})
+				}
+			}
+		}
+	}
+	res.Histogram["template-renders"] = nT
+
+	// 3. the Lean reference decoders against the standard library (spec validation)
+	for i := 0; i < c.N(4000, 60000); i++ {
+		decCases = append(decCases,
+			decCase{"html", tokenString(c.R, htmlTokens)},
+			decCase{"css", tokenString(c.R, cssTokens)},
+			decCase{"pct0", tokenString(c.R, pctTokens)},
+			decCase{"pct1", tokenString(c.R, pctTokens)})
+		j := tokenString(c.R, jsTokens)
+		decCases = append(decCases, decCase{"js", j}, decCase{"json", j})
+	}
+	if c.D != nil {
+		lines := make([]string, len(decCases))
+		for i, d := range decCases {
+			lines[i] = "C07 dec " + d.which + " " + proto.Hex([]byte(d.in))
+		}
+		ans, err := c.D.Batch(lines)
+		if err != nil {
+			return err
+		}
+		for i, d := range decCases {
+			want, ok := stdDecode(d.which, d.in)
+			if !ok {
+				res.SpecChecks["skipped-stdlib-departs-from-standard"]++
+				continue
+			}
+			res.SpecChecks["decode-"+d.which+"-vs-stdlib"]++
+			if ans[i] != want {
+				res.AddBreak(proto.Break{Kind: "correspondence", Name: "spec-decoder-vs-stdlib:" + d.which, Case: lines[i],
+					Human: fmt.Sprintf("decode %s %q", d.which, d.in), Impl: want, Model: ans[i]})
+			}
+		}
+		// alphabet predicate of the spec against the harness's
+		var al []string
+		for i := 0; i < len(decCases); i += 5 {
+			al = append(al, "C07 alpha "+proto.Hex([]byte(decCases[i].in)))
+		}
+		ans, err = c.D.Batch(al)
+		if err != nil {
+			return err
+		}
+		for i := range al {
+			want := "ok 0"
+			if pctAlphabet(decCases[i*5].in) {
+				want = "ok 1"
+			}
+			res.SpecChecks["pct-alphabet-vs-harness"]++
+			if ans[i] != want {
+				res.AddBreak(proto.Break{Kind: "correspondence", Name: "spec-alphabet", Case: al[i], Impl: want, Model: ans[i]})
+			}
+		}
+	}
+	return nil
 }
